@@ -49,7 +49,7 @@ pub(super) fn get_highest_index(file_spec: &FileSpec) -> std::io::Result<Option<
     for file in
         super::list_and_cleanup::list_of_log_and_compressed_files(file_spec, &InfixFilter::Numbrs)?
     {
-        let name = file.file_stem().unwrap(/*ok*/).to_string_lossy();
+        let name = file.file_name().unwrap(/*ok*/).to_string_lossy();
         let infix = if file_spec.has_basename()
             || file_spec.has_discriminant()
             || file_spec.uses_timestamp()
@@ -64,7 +64,7 @@ pub(super) fn get_highest_index(file_spec: &FileSpec) -> std::io::Result<Option<
             &name[1..]
         };
 
-        // the stem of a compressed file still ends with the suffix of the log files
+        // the number is followed by the suffix, and by .gz for a compressed file
         let idx: u32 = infix
             .split('.')
             .next()
